@@ -25,3 +25,8 @@ claim('C08', 'other',
       'Static path-condition analysis of the MAC command handler: each state write of each request arm is guarded by every acknowledgement bit reported in the answer; channel-plan mutations inside NewChannel/DlChannel handling only on paths returning all-true acknowledgements; written values are the commanded ones (or "keep" for 15); exactly one answer site per request (LinkADR: per-request counter); answers appended whole under the capacity guard; retained-answer set extracted as a decision table; RFU verdict of channel_mask_update not discarded. Decides these for all command byte values; not trailing-drop over sequences.',
       'Trusted: rustc MIR construction; effect summaries; sticky set / FOpts limit frozen from the specification.',
       'static analysis: path conditions vs acknowledgement provenance, decision table of the sticky filter, who-calls', 'DESIGN.md 4/C08')
+
+claim('C03', 'proof',
+      'Abstract interpretation of the MIR of every exported parse-side function of the lorawan crate (1380+ entry points incl. all six generated command sets, views, accessors, iterators, wire newtypes, text forms): every panic-capable site (bounds/overflow/div assertions, range slicing, copy_from_slice, unwrap/expect, explicit panics) is an obligation discharged in every analysed context by intervals + finite sets + linear constraints with per-variant facts; view-type invariants are inferred from all construction sites (sound by field privacy) and the data-frame layout invariant is checked at each construction; loops reach a fixpoint; iterator fusing/advance rules and absence of recursion checked on the CFG/call graph. All byte strings and lengths are symbolic: this is a proof over all inputs modulo the trusted base.',
+      'Trusted base: rustc MIR construction; models of core/heapless/hex/aes-keyinit functions (lrs/absint_models.py); soundness of the abstract domains; field privacy of view types; entry exclusions are documented-contract functions (new_from_raw, parse_one, Crypto block callbacks, set_channel) analysed in all workspace calling contexts; sites depending only on caller-chosen indices / const generics are listed as preconditions.',
+      'static analysis: abstract interpretation (intervals, value sets, linear constraints, variant-guarded facts) with inferred type invariants; proof obligations per panic site', 'DESIGN.md 4/C03', engine='lrs/absint')
